@@ -237,6 +237,9 @@ class ExprMixin:
         if is_term(x) and tn and self.ty.kind(tn) == 'map':
             un, t = self.ty.under(tn)
             v = self.map_lookup(state, x, tn, i)
+            has = self.map_has(state, x, tn, i)
+            from .state import map_leaves
+            v = map_leaves(lambda a, b: T.ite(has, a, b), v, self.ty.zero(t['elem']))
             return v, t['elem']
         raise Unsupported('indexing %r' % (x,))
 
@@ -262,6 +265,23 @@ class ExprMixin:
             if isinstance(x, SliceV):
                 return x.cap, 'int'
             raise Unsupported('cap of non-slice')
+        if name == 'content':
+            x, tn = self.eval(args[0], env)
+            if not isinstance(x, SliceV):
+                raise Unsupported('content of non-slice')
+            lv = self.ty.leaves(x.elem)
+            if len(lv) != 1:
+                raise Unsupported('content of slice of composite elements')
+            arr = self.heap_get(env.state, 'E|%s' % x.elem, T.ARR(T.INT, T.ARR(T.INT, lv[0][1])))
+            return T.select(arr, x.base), None
+        if name == 'emod':
+            a = self.eval_int(args[0], env)
+            b = self.eval_int(args[1], env)
+            return T.smod(a, b), None
+        if name == 'ediv':
+            a = self.eval_int(args[0], env)
+            b = self.eval_int(args[1], env)
+            return T.sdiv(a, b), None
         if name == 'base':
             x, tn = self.eval(args[0], env)
             return x.base, None
@@ -288,6 +308,12 @@ class ExprMixin:
             m, tn = self.eval(args[0], env)
             key = self.eval_int(args[1], env)
             return self.map_has(env.state, m, tn, key), None
+        if name == 'implements':
+            x, tn = self.eval(args[0], env)
+            a = args[1]
+            tname = a[1] if a[0] == 'name' else (a[1][1] + '.' + a[2] if a[0] == 'sel' and a[1][0] == 'name' else None)
+            full = self.resolve_type_name(tname, env)
+            return self.uf_implements(x, full), None
         if name == 'dyntype':
             x, tn = self.eval(args[0], env)
             return self.uf_dyn(x), None
@@ -379,6 +405,10 @@ class ExprMixin:
 
     def err_kind_id(self, name):
         return self.ty.type_id('errkind:' + name)
+
+    def uf_implements(self, x, iface_type):
+        f = T.UF('implements', [T.INT, T.INT], T.BOOL)
+        return f(self.uf_dyn(x), T.I(self.ty.type_id(iface_type)))
 
     def uf_dyn(self, x):
         return T.UF('dyn', [T.INT], T.INT)(x)
